@@ -1400,8 +1400,6 @@ def run(ck):
                                                      "C27_FinalNeverPartial"),
             "one fixed temporary name shared by all writers": (
                 ex.submit(write_tlc, "wfixed", unique=False, invariants=["C27_FinalNeverPartial"]), "C27_FinalNeverPartial"),
-            "one fixed temporary name: names not private": (
-                ex.submit(write_tlc, "wfixed2", unique=False, invariants=["C27_TempNamesPrivate"]), "C27_TempNamesPrivate"),
             "checksum over line-normalised source": (ex.submit(src_tlc, "src_lines", alpha=ALPHABET, maxlen=1, cks="lines"),
                                                      "C27_ChecksumSeparatesSources"),
         }
@@ -1417,7 +1415,7 @@ def run(ck):
             "edit": ex.submit(bcc_tlc, "g_edit", cfgof=("c1",), trunc=(), foreign=False, stages=(),
                               clear_stages=(), graph=True),
         }
-        alias = {"holds": ex.submit(alias_tlc, "alias"), "graph": ex.submit(alias_tlc, "alias_g", graph=True, invariants=("TypeOK",))}
+        alias = ex.submit(alias_tlc, "alias", graph=True)      # invariants checked and graph printed in one run
         ref["key = file name alone (one file, several template names)"] = (
             ex.submit(alias_tlc, "alias_file", mode="file", invariants=("C27_CodeCompiledForOwnName",)),
             "C27_CodeCompiledForOwnName")
@@ -1436,9 +1434,8 @@ def run(ck):
             r = f.result()
             ck.add_tlc(r, f"BCCache graph {label}")
             graphs[label] = edges_of(r)
-        ck.add_tlc(alias["holds"].result(), "BCCacheAlias key = name + file name")
-        r = alias["graph"].result()
-        ck.add_tlc(r, "BCCacheAlias graph")
+        r = alias.result()
+        ck.add_tlc(r, "BCCacheAlias key = name + file name (+ graph)")
         alias_edges = edges_of(r)
         pairs = {}
         for label, f in src.items():
